@@ -94,6 +94,10 @@ class UpdateModel(ClassModel):
     def _kind(self, I, u):
         return I.getfield(u, 'kind'), I.world.globals['UpdateKind'].members
 
+    def m___bool__(self, I, u):
+        # any update may be empty ({} for a mapping; [], '', 0, () ... for something that is not a mapping)
+        return SV(BOOL, z3.Not(I.getfield(u, 'falsy').t))
+
     def m_values(self, I, u):
         kind, U = self._kind(I, u)
         if I.path.cond(kind.t == U['BAD'].t):
@@ -207,7 +211,7 @@ def make_worker_world():
             kind = I.fresh(T('Enum', 'UpdateKind'), 'update_kind')
             I.update_kind = kind
             U = w.globals['UpdateKind'].members
-            upd = None if I.path.cond(kind.t == U['NONE'].t) else I.alloc('Update', {'kind': kind, 'owner': task})
+            upd = None if I.path.cond(kind.t == U['NONE'].t) else I.alloc('Update', {'kind': kind, 'owner': task, 'falsy': I.fresh(BOOL, 'update_is_empty')})
             raw = I.fresh(RAW, 'returned_status')
             I.returned = (upd, raw)
             return (upd, raw)
@@ -336,7 +340,8 @@ def worker_check(I, scope, outcome):
     if I.returned is not None:
         upd, raw = I.returned
         kind = I.update_kind
-        must_apply = z3.And(wellformed, kind.t == U['MAPPING'].t, st.t == D.t)
+        nonempty = z3.Not(I.getfield(upd, 'falsy').t) if isinstance(upd, SObj) else z3.BoolVal(False)      # applying an empty mapping changes nothing: not required
+        must_apply = z3.And(wellformed, kind.t == U['MAPPING'].t, st.t == D.t, nonempty)
         p.oblige(f'{L}::yield-inv::C01-update-applied-before-status', z3.Implies(must_apply, z3.BoolVal(bool(applied) and max(applied) < i_set)),
                  kind='yield-inv', meta={'expr': 'st[task] final => the returned update is already applied (Env.apply precedes Env.set_status)'})
     p.oblige(f'{L}::yield-inv::C01-nothing-applied-after-status', all(i < i_set for i in applied), kind='yield-inv',
